@@ -170,7 +170,6 @@ package keeper
 
 // ---- withdrawals: pay out the recorded balance, zero it, persist the record ----
 //@ func (*keeper).paymentWithdraw
-//@   requires obj.Balance.Amount >= 0
 //@   modifies *obj, ghost KVhas, ghost KVval, ghost G, ghost Mod, ghost Bank
 //@   ensures [fail] result != nil ==> *obj == old(*obj) && KVhas == old(KVhas) && KVval == old(KVval) && G == old(G) && Mod == old(Mod) && Bank == old(Bank)
 //@   ensures [obj] result == nil ==> *obj == upd(upd(old(*obj), Balance.Amount, 0), Withdrawn.Amount, old(obj.Withdrawn.Amount) + old(obj.Balance.Amount))
@@ -183,7 +182,6 @@ package keeper
 //@   ensures [gframe] forall sk: iface :: sk != k.skey ==> G[sk] == old(G)[sk]
 
 //@ func (*keeper).accountWithdraw
-//@   requires obj.Balance.Amount >= 0
 //@   modifies *obj, ghost KVhas, ghost KVval, ghost G, ghost Mod, ghost Bank
 //@   ensures [fail] result != nil ==> *obj == old(*obj) && KVhas == old(KVhas) && KVval == old(KVval) && G == old(G) && Mod == old(Mod) && Bank == old(Bank)
 //@   ensures [obj] result == nil ==> *obj == upd(old(*obj), Balance.Amount, 0)
@@ -267,11 +265,42 @@ package keeper
 //@ spec opaque stable(has0: map[str]bool, val0: map[str]str, has1: map[str]bool, val1: map[str]str): bool =
 //@        forall key: str :: has0[key] && closedRec(key, val0[key]) ==> has1[key] && val1[key] == val0[key]
 // well-formedness of the records of one account (part of the representation invariant)
-//@ spec wfAcct(has: map[str]bool, val: map[str]str, id: types.AccountID): bool =
+//@ spec opaque wfAcct(has: map[str]bool, val: map[str]str, id: types.AccountID): bool =
 //@        keysMatch(has, val, id)
 //@        && (has[aKey(id)] ==> acctOf(val, id).ID == id && acctOf(val, id).Balance.Amount >= 0 && acctOf(val, id).Transferred.Amount >= 0
 //@               && acctOf(val, id).Transferred.Denom == acctOf(val, id).Balance.Denom && validDenom(acctOf(val, id).Balance.Denom))
 //@        && (forall j: int :: 0 <= j && j < enumLen(has, apKey(id)) ==> wfPay(recAt(has, val, id, j), acctOf(val, id).Balance.Denom))
+
+// payment records keep their ids and stay well formed (pointwise form of the representation invariant)
+//@ spec okRec(key: str, v0: str, v1: str, d: str): bool = keyKind(key) == 2 ==>
+//@        (decode(types.Payment, v1).AccountID == decode(types.Payment, v0).AccountID && decode(types.Payment, v1).PaymentID == decode(types.Payment, v0).PaymentID
+//@         && decode(types.Payment, v1).State == decode(types.Payment, v0).State
+//@         && (wfPay(decode(types.Payment, v0), d) ==> wfPay(decode(types.Payment, v1), d)))
+//@ spec opaque recsOK(has: map[str]bool, val0: map[str]str, val1: map[str]str, d: str): bool = forall key: str :: has[key] ==> okRec(key, val0[key], val1[key], d)
+//@ lemma recsOKTrans(has: map[str]bool, v0: map[str]str, v1: map[str]str, v2: map[str]str, d: str)
+//@   requires recsOK(has, v0, v1, d) && recsOK(has, v1, v2, d)
+//@   ensures recsOK(has, v0, v2, d)
+//@   trigger recsOK(has, v0, v1, d), recsOK(has, v1, v2, d)
+//@ lemma recsOKRefl(has: map[str]bool, v0: map[str]str, d: str)
+//@   ensures recsOK(has, v0, v0, d)
+//@   trigger recsOK(has, v0, v0, d)
+// the enumeration-based invariant follows from the pointwise one when the key set is unchanged
+//@ lemma wfAcctStep(has: map[str]bool, v0: map[str]str, v1: map[str]str, id: types.AccountID)
+//@   requires wfAcct(has, v0, id) && has[aKey(id)] && recsOK(has, v0, v1, acctOf(v0, id).Balance.Denom)
+//@   requires acctOf(v1, id).ID == id && acctOf(v1, id).Balance.Amount >= 0 && acctOf(v1, id).Transferred.Amount >= 0
+//@   requires acctOf(v1, id).Balance.Denom == acctOf(v0, id).Balance.Denom && acctOf(v1, id).Transferred.Denom == acctOf(v0, id).Balance.Denom
+//@   ensures wfAcct(has, v1, id)
+//@   trigger wfAcct(has, v0, id), recsOK(has, v0, v1, acctOf(v0, id).Balance.Denom)
+
+// structure of payment keys (proved from the byte-level key functions under C06)
+//@ axiom payPrefix: forall id: types.AccountID, pid: str :: hasPrefix(pKey(id, pid), apKey(id))
+//@ axiom pKeyInjPid: forall id: types.AccountID, p1: str, p2: str :: pKey(id, p1) == pKey(id, p2) ==> p1 == p2
+// a record found directly under pKey(id, pid) carries exactly these ids
+//@ lemma payIds(has: map[str]bool, val: map[str]str, id: types.AccountID, pid: str)
+//@   requires wfAcct(has, val, id) && has[pKey(id, pid)]
+//@   ensures payOf(val, id, pid).AccountID == id && payOf(val, id, pid).PaymentID == pid
+//@           && wfPay(payOf(val, id, pid), acctOf(val, id).Balance.Denom)
+//@   trigger wfAcct(has, val, id), pKey(id, pid)
 
 //@ lemma stableTrans(h0: map[str]bool, v0: map[str]str, h1: map[str]bool, v1: map[str]str, h2: map[str]bool, v2: map[str]str)
 //@   requires stable(h0, v0, h1, v1) && stable(h1, v1, h2, v2)
@@ -297,7 +326,7 @@ package keeper
 //@ spec keyOf(p: types.Payment): str = pKey(p.AccountID, p.PaymentID)
 
 //@ func (*keeper).doAccountSettle
-//@   uses sumRateFrame, stableTrans, stableRefl
+//@   uses sumRateFrame, stableTrans, stableRefl, recsOKTrans, recsOKRefl, wfAcctStep
 //@   requires k.skey == escrowSKey()
 //@   requires wfAcct(KVhas[k.skey], KVval[k.skey], id)
 //@   requires KVhas[k.skey][aKey(id)] ==> acctOf(KVval[k.skey], id).SettledAt <= height(ctx)
@@ -317,7 +346,12 @@ package keeper
 //@                result1[m].State == types.PaymentOpen && result1[m].AccountID == id && storedAs(KVhas[k.skey], KVval[k.skey], result1[m])
 //@                && wfPay(result1[m], result0.Balance.Denom))
 //@   ensures [dom] result3 == nil && !result2 ==> KVhas == old(KVhas)
+//@   ensures [fresh] result3 == nil && len(result1) > 0 ==> fresh(result1)
+//@   ensures [distinct] result3 == nil && !result2 ==> (forall m1: int, m2: int :: 0 <= m1 && m1 < m2 && m2 < len(result1) ==> keyOf(result1[m1]) != keyOf(result1[m2]))
+//@   ensures [recs] result3 == nil && !result2 ==> recsOK(old(KVhas)[k.skey], old(KVval)[k.skey], KVval[k.skey], acctOf(old(KVval)[k.skey], id).Balance.Denom)
+//@   ensures [wf] result3 == nil && !result2 ==> wfAcct(KVhas[k.skey], KVval[k.skey], id)
 //@   ensures [stable] stable(old(KVhas)[k.skey], old(KVval)[k.skey], KVhas[k.skey], KVval[k.skey])
+//@   loop 2 invariant recsOK(old(KVhas)[k.skey], old(KVval)[k.skey], KVval[k.skey], acctOf(old(KVval)[k.skey], id).Balance.Denom)
 //@   loop 1 invariant 0 <= iter && iter <= len(payments) && blockRate.Amount >= 0 && (iter > 0 ==> blockRate.Amount > 0)
 //@   loop 1 invariant blockRate.Amount == sumRate(payments, iter) && blockRate.Denom == account.Balance.Denom
 //@   loop 2 invariant 0 <= iter && iter <= len(payments) && KVhas == old(KVhas)
@@ -334,6 +368,100 @@ package keeper
 //@   loop 5 invariant stable(old(KVhas)[k.skey], old(KVval)[k.skey], KVhas[k.skey], KVval[k.skey])
 //@   loop 6 invariant KVhas[k.skey][aKey(id)] && KVval[k.skey][aKey(id)] == encode(account)
 //@   loop 6 invariant stable(old(KVhas)[k.skey], old(KVval)[k.skey], KVhas[k.skey], KVval[k.skey])
+
+//@ func (*keeper).AccountSettle
+//@   requires k.skey == escrowSKey()
+//@   requires wfAcct(KVhas[k.skey], KVval[k.skey], id)
+//@   requires KVhas[k.skey][aKey(id)] ==> acctOf(KVval[k.skey], id).SettledAt <= height(ctx)
+//@   modifies ghost KVhas, ghost KVval, ghost G, ghost Mod, ghost Bank, ghost It_all
+//@   ensures [missing] !old(KVhas)[k.skey][aKey(id)] ==> result1 != nil
+//@   ensures [notopen] old(KVhas)[k.skey][aKey(id)] && acctOf(old(KVval)[k.skey], id).State != types.AccountOpen ==> result1 != nil
+//@   ensures [precheck] !old(KVhas)[k.skey][aKey(id)] || acctOf(old(KVval)[k.skey], id).State != types.AccountOpen ==>
+//@                KVhas == old(KVhas) && KVval == old(KVval) && G == old(G) && Mod == old(Mod) && Bank == old(Bank)
+//@   ensures [od] result1 == nil && result0 ==> KVhas[k.skey][aKey(id)] && acctOf(KVval[k.skey], id).State == types.AccountOverdrawn && acctOf(KVval[k.skey], id).Balance.Amount == 0
+//@   ensures [open] result1 == nil && !result0 ==> KVhas == old(KVhas) && acctOf(KVval[k.skey], id).State == types.AccountOpen
+//@   ensures [wf] result1 == nil && !result0 ==> wfAcct(KVhas[k.skey], KVval[k.skey], id)
+//@                && recsOK(old(KVhas)[k.skey], old(KVval)[k.skey], KVval[k.skey], acctOf(old(KVval)[k.skey], id).Balance.Denom)
+//@   ensures [stable] stable(old(KVhas)[k.skey], old(KVval)[k.skey], KVhas[k.skey], KVval[k.skey])
+
+// C03: a request to close an open payment always takes effect (unless the account ran dry, in which
+// case everything was paid out and marked overdrawn)
+//@ func (*keeper).PaymentClose
+//@   uses stableTrans, stableRefl, payIds
+//@   requires k.skey == escrowSKey()
+//@   requires wfAcct(KVhas[k.skey], KVval[k.skey], id)
+//@   requires KVhas[k.skey][aKey(id)] ==> acctOf(KVval[k.skey], id).SettledAt <= height(ctx)
+//@   modifies ghost KVhas, ghost KVval, ghost G, ghost Mod, ghost Bank, ghost It_all
+//@   ensures [missing] !old(KVhas)[k.skey][pKey(id, pid)] ==> result != nil
+//@   ensures [notopen] old(KVhas)[k.skey][pKey(id, pid)] && payOf(old(KVval)[k.skey], id, pid).State != types.PaymentOpen ==> result != nil
+//@   ensures [precheck] !old(KVhas)[k.skey][pKey(id, pid)] || payOf(old(KVval)[k.skey], id, pid).State != types.PaymentOpen ==>
+//@                KVhas == old(KVhas) && KVval == old(KVval) && G == old(G) && Mod == old(Mod) && Bank == old(Bank)
+//@   ensures [closed] result == nil ==> (KVhas[k.skey][aKey(id)] && acctOf(KVval[k.skey], id).State == types.AccountOverdrawn)
+//@                || (KVhas[k.skey][pKey(id, pid)] && payOf(KVval[k.skey], id, pid).State == types.PaymentClosed && payOf(KVval[k.skey], id, pid).Balance.Amount == 0)
+//@   ensures [stable] stable(old(KVhas)[k.skey], old(KVval)[k.skey], KVhas[k.skey], KVval[k.skey])
+//@   loop 1 invariant KVhas[k.skey][pKey(id, pid)] && KVval[k.skey][pKey(id, pid)] == encode(payment)
+//@   loop 1 invariant payment.State == types.PaymentClosed && payment.Balance.Amount == 0
+//@   loop 1 invariant stable(old(KVhas)[k.skey], old(KVval)[k.skey], KVhas[k.skey], KVval[k.skey])
+
+//@ func (*keeper).PaymentWithdraw
+//@   uses stableTrans, stableRefl, payIds
+//@   requires k.skey == escrowSKey()
+//@   requires wfAcct(KVhas[k.skey], KVval[k.skey], id)
+//@   requires KVhas[k.skey][aKey(id)] ==> acctOf(KVval[k.skey], id).SettledAt <= height(ctx)
+//@   modifies ghost KVhas, ghost KVval, ghost G, ghost Mod, ghost Bank, ghost It_all
+//@   ensures [missing] !old(KVhas)[k.skey][pKey(id, pid)] ==> result != nil
+//@   ensures [notopen] old(KVhas)[k.skey][pKey(id, pid)] && payOf(old(KVval)[k.skey], id, pid).State != types.PaymentOpen ==> result != nil
+//@   ensures [precheck] !old(KVhas)[k.skey][pKey(id, pid)] || payOf(old(KVval)[k.skey], id, pid).State != types.PaymentOpen ==>
+//@                KVhas == old(KVhas) && KVval == old(KVval) && G == old(G) && Mod == old(Mod) && Bank == old(Bank)
+//@   ensures [paid] result == nil ==> (KVhas[k.skey][aKey(id)] && acctOf(KVval[k.skey], id).State == types.AccountOverdrawn)
+//@                || (KVhas[k.skey][pKey(id, pid)] && payOf(KVval[k.skey], id, pid).State == types.PaymentOpen && payOf(KVval[k.skey], id, pid).Balance.Amount == 0)
+//@   ensures [stable] stable(old(KVhas)[k.skey], old(KVval)[k.skey], KVhas[k.skey], KVval[k.skey])
+
+//@ func (*keeper).PaymentCreate
+//@   uses stableTrans, stableRefl
+//@   requires k.skey == escrowSKey()
+//@   requires wfAcct(KVhas[k.skey], KVval[k.skey], id)
+//@   requires KVhas[k.skey][aKey(id)] ==> acctOf(KVval[k.skey], id).SettledAt <= height(ctx)
+//@   modifies ghost KVhas, ghost KVval, ghost G, ghost Mod, ghost Bank, ghost It_all
+//@   ensures [missing] !old(KVhas)[k.skey][aKey(id)] ==> result != nil
+//@   ensures [notopen] old(KVhas)[k.skey][aKey(id)] && acctOf(old(KVval)[k.skey], id).State != types.AccountOpen ==> result != nil
+//@   ensures [dup] old(KVhas)[k.skey][pKey(id, pid)] ==> result != nil
+//@   ensures [created] result == nil ==> KVhas[k.skey][pKey(id, pid)]
+//@                && payOf(KVval[k.skey], id, pid).AccountID == id && payOf(KVval[k.skey], id, pid).PaymentID == pid
+//@                && payOf(KVval[k.skey], id, pid).Owner == bech32(owner) && payOf(KVval[k.skey], id, pid).State == types.PaymentOpen
+//@                && payOf(KVval[k.skey], id, pid).Rate == rate && rate.Amount != 0
+//@                && payOf(KVval[k.skey], id, pid).Balance.Amount == 0 && payOf(KVval[k.skey], id, pid).Balance.Denom == rate.Denom
+//@                && payOf(KVval[k.skey], id, pid).Withdrawn.Amount == 0 && payOf(KVval[k.skey], id, pid).Withdrawn.Denom == rate.Denom
+//@   ensures [acct] result == nil ==> KVhas[k.skey][aKey(id)] && acctOf(KVval[k.skey], id).State == types.AccountOpen
+//@                && acctOf(KVval[k.skey], id).Balance.Denom == rate.Denom && acctOf(KVval[k.skey], id).SettledAt == height(ctx)
+//@   ensures [stable] stable(old(KVhas)[k.skey], old(KVval)[k.skey], KVhas[k.skey], KVval[k.skey])
+
+// C03: closing an open account always takes effect on the account record
+//@ func (*keeper).AccountClose
+//@   uses stableTrans, stableRefl
+//@   requires k.skey == escrowSKey()
+//@   requires wfAcct(KVhas[k.skey], KVval[k.skey], id)
+//@   requires KVhas[k.skey][aKey(id)] ==> acctOf(KVval[k.skey], id).SettledAt <= height(ctx)
+//@   modifies ghost KVhas, ghost KVval, ghost G, ghost Mod, ghost Bank, ghost It_all
+//@   ensures [missing] !old(KVhas)[k.skey][aKey(id)] ==> result != nil
+//@   ensures [notopen] old(KVhas)[k.skey][aKey(id)] && acctOf(old(KVval)[k.skey], id).State != types.AccountOpen ==> result != nil
+//@   ensures [precheck] !old(KVhas)[k.skey][aKey(id)] || acctOf(old(KVval)[k.skey], id).State != types.AccountOpen ==>
+//@                KVhas == old(KVhas) && KVval == old(KVval) && G == old(G) && Mod == old(Mod) && Bank == old(Bank)
+//@   ensures [closed] result == nil ==> KVhas[k.skey][aKey(id)] && acctOf(KVval[k.skey], id).State != types.AccountOpen && acctOf(KVval[k.skey], id).Balance.Amount == 0
+//@   ensures [stable] stable(old(KVhas)[k.skey], old(KVval)[k.skey], KVhas[k.skey], KVval[k.skey])
+//@   loop 1 invariant 0 <= iter && iter <= len(payments) && KVhas[k.skey][aKey(id)] && KVval[k.skey][aKey(id)] == encode(account)
+//@   loop 1 invariant stable(old(KVhas)[k.skey], old(KVval)[k.skey], KVhas[k.skey], KVval[k.skey])
+//@   loop 1 invariant forall m: int :: iter <= m && m < len(payments) ==> payments[m].State == types.PaymentOpen && payments[m].AccountID == id
+//@                && storedAs(KVhas[k.skey], KVval[k.skey], payments[m])
+//@   loop 1 invariant forall m1: int, m2: int :: 0 <= m1 && m1 < m2 && m2 < len(payments) ==> keyOf(payments[m1]) != keyOf(payments[m2])
+//@   loop 1 invariant len(payments) > 0 ==> fresh(payments)
+//@   loop 1 modifies payments[*], ghost KVhas, ghost KVval, ghost G, ghost Mod, ghost Bank
+//@   loop 2 invariant KVhas[k.skey][aKey(id)] && KVval[k.skey][aKey(id)] == encode(account)
+//@   loop 2 invariant stable(old(KVhas)[k.skey], old(KVval)[k.skey], KVhas[k.skey], KVval[k.skey])
+//@   loop 3 invariant KVhas[k.skey][aKey(id)] && KVval[k.skey][aKey(id)] == encode(account)
+//@   loop 3 invariant stable(old(KVhas)[k.skey], old(KVval)[k.skey], KVhas[k.skey], KVval[k.skey])
+//@   loop 4 invariant KVhas[k.skey][aKey(id)] && KVval[k.skey][aKey(id)] == encode(account)
+//@   loop 4 invariant stable(old(KVhas)[k.skey], old(KVval)[k.skey], KVhas[k.skey], KVval[k.skey])
 
 //@ func (*keeper).AccountCreate
 //@   requires k.skey == escrowSKey() && validDenom(deposit.Denom)
@@ -368,4 +496,4 @@ package keeper
 //@   ensures [conserve] forall d: str :: Mod["escrow"][d] - G[k.skey][d] == old(Mod)["escrow"][d] - old(G)[k.skey][d]
 //@   ensures [stable] stable(old(KVhas)[k.skey], old(KVval)[k.skey], KVhas[k.skey], KVval[k.skey])
 
-//@ property C03 := lemma:sumRateFrame, lemma:stableTrans, lemma:stableRefl, (*keeper).doAccountSettle#*, (*keeper).AccountCreate#*, (*keeper).AccountDeposit#*, (*keeper).paymentWithdraw#*, (*keeper).accountWithdraw#*, lemma:openCountMono, lemma:openCountStrict, (*keeper).accountPayments#*, (*keeper).accountOpenPayments#*, (*keeper).GetAccount#*, (*keeper).GetPayment#*, (*keeper).saveAccount#*, (*keeper).savePayment#*
+//@ property C03 := (*keeper).PaymentWithdraw#*, (*keeper).PaymentCreate#*, (*keeper).AccountClose#*, lemma:payIds, lemma:recsOKTrans, lemma:recsOKRefl, lemma:wfAcctStep, (*keeper).AccountSettle#*, (*keeper).PaymentClose#*, lemma:sumRateFrame, lemma:stableTrans, lemma:stableRefl, (*keeper).doAccountSettle#*, (*keeper).AccountCreate#*, (*keeper).AccountDeposit#*, (*keeper).paymentWithdraw#*, (*keeper).accountWithdraw#*, lemma:openCountMono, lemma:openCountStrict, (*keeper).accountPayments#*, (*keeper).accountOpenPayments#*, (*keeper).GetAccount#*, (*keeper).GetPayment#*, (*keeper).saveAccount#*, (*keeper).savePayment#*
